@@ -142,7 +142,8 @@ void density_sketch<T, K, A>::compact() {
 template<typename T, typename K, typename A>
 void density_sketch<T, K, A>::compact_level(unsigned height) {
   auto& level = levels_[height];
-  std::vector<bool> bits(level.size());
+  // scratch space comes from the sketch's allocator, like everything else
+  std::vector<bool, typename std::allocator_traits<A>::template rebind_alloc<bool>> bits(level.size(), false, levels_.get_allocator());
   bits[0] = random_utils::random_bit();
   std::shuffle(level.begin(), level.end(), random_utils::rand);
   for (unsigned i = 1; i < level.size(); ++i) {
